@@ -4,7 +4,7 @@ from . import c05
 
 ID = "C09"
 LEAN_MODULE = "Ucfg.Props.C09"
-LEVEL_TEXT = 'Permutation theorems for dictionary lookup and dictionary merge; normalisation of overlapping dotted keys under permutation is compared (model on given and reversed order; 12/48 permuted repetitions on the real code) - partial.'
+LEVEL_TEXT = 'Permutation theorems for dictionary lookup, dictionary merge and normalizeMapInto over any number of distinct simple keys (normMapInto_order_independent); normalisation of overlapping dotted keys under permutation is compared (model on given and reversed order; 12/48 permuted repetitions on the real code) - partial.'
 CORRESPONDENCE = "Normalize.normMapInto (explicit entry order) / Merge.mergeDictP ~ NewFrom / Merge / Unpack repeated on identical arguments"
 RULE = ("the C05 inputs biased to keys that overlap after dotted-path expansion (a dotted and a nested definition of the same "
         "prefix, index keys next to lists, primitives under a prefix that is also a dictionary, nulls and list padding in one spelling "
